@@ -329,11 +329,21 @@ def gen_corpus(seed, tier):
     return d
 
 
-def build_rtc(o, features=()):
+def build_rtc(o, features=(), profile=None):
     d = gen_corpus(o.seed, o.tier)
     o.extra["corpus"] = json.load(open(os.path.join(d, "corpus.json")))
     tag = "rtc-%d-%s%s" % (o.seed, o.tier, ("-" + "+".join(features)) if features else "")
-    return build_rt(features, extra_env={"VERIF_GEN": d}, tag=tag, package="rtc")
+    return build_rt(features, extra_env={"VERIF_GEN": d}, tag=tag, package="rtc", profile=profile)
+
+
+def nodebug_pass(o, exe, sub, args, timeout, crash=None):
+    """The same workload (smaller) in a build without debug assertions / overflow checks: behaviour must not hide in debug_assert!."""
+    d0 = o.distinct
+    rep = rt_pass(o, exe, sub, args, timeout, crash_is_violation=crash, prefix="nodebug_", name="%s-%s-nodebug" % (o.prop, sub))
+    o.distinct = d0  # the same cases again in another build: executions, not new distinct cases
+    if rep is not None and rep.get("evaluations", 0) <= 0:
+        o.inconclusive.append("the nodebug pass executed nothing")
+    o.extra["nodebug"] = "workload repeated in profile `nodebug` (opt-level 1, debug-assertions off, overflow-checks off); counters under nodebug_*"
 
 
 ASAN_FLAGS = "-Zsanitizer=address -Cforce-frame-pointers=yes " + CFG_FLAGS
@@ -426,6 +436,7 @@ def p_decode(o):
     o.replay_base = {"sub": "decode"}
     crash = ("C14/crash", "decoding aborted or crashed the process")
     rt_pass(o, exe, "decode", ["--cases", sizes(o.tier, 8_000, 40_000), "--max-secs", sizes(o.tier, 90, 600)], timeout=sizes(o.tier, 400, 1800), crash_is_violation=crash)
+    nodebug_pass(o, build_rt(profile="nodebug"), "decode", ["--cases", sizes(o.tier, 1_000, 8_000), "--first", 900_000, "--max-secs", sizes(o.tier, 30, 120)], timeout=sizes(o.tier, 300, 900), crash=crash)
     o.extra["exhaustive"] = True
     o.extra["exhaustive_scope"] = ("for every base input counted in bases_with_all_truncations_and_bitflips, ALL truncations and ALL single-bit flips were executed "
                                    "(also every byte insert/delete/duplicate position and every length/id/option/tag slot x 17 hostile encodings); other fault classes are sampled")
@@ -461,6 +472,7 @@ def p_hist(o):
     if o.prop == "C02":
         crash = ("C02/registration-does-not-terminate", "registering a (possibly cyclic) type crashed the process (stack overflow / abort)")
     rt_pass(o, exe, "hist", ["--cases", sizes(o.tier, 30_000, 6_000_000), "--max-secs", sizes(o.tier, 60, 480)], timeout=sizes(o.tier, 400, 1800), crash_is_violation=crash)
+    nodebug_pass(o, build_rtc(o, profile="nodebug"), "hist", ["--cases", sizes(o.tier, 6_000, 400_000), "--max-secs", sizes(o.tier, 30, 120)], timeout=sizes(o.tier, 300, 900), crash=crash)
     o.rule = HIST_RULE
     floor = ["cyclic_type_registered", "type_first_met_as_type_parameter", "op_register_type", "op_register_types", "op_map_into_portable_type", "op_map_into_portable_params"] + \
             ["def_" + k for k in ("composite", "variant", "sequence", "array", "tuple", "primitive", "compact", "bitsequence")]
@@ -503,6 +515,7 @@ def p_values(o):
     exe = build_rtc(o)
     o.replay_base = {"sub": "values", "bin": "rtc"}
     rt_pass(o, exe, "values", ["--rounds", sizes(o.tier, 6, 300), "--values", sizes(o.tier, 150, 600), "--max-secs", sizes(o.tier, 60, 420)], timeout=sizes(o.tier, 400, 1800))
+    nodebug_pass(o, build_rtc(o, profile="nodebug"), "values", ["--rounds", sizes(o.tier, 2, 20), "--values", sizes(o.tier, 60, 200), "--max-secs", sizes(o.tier, 30, 120)], timeout=sizes(o.tier, 300, 900))
     if o.prop == "C04":
         o.rule = ("every built-in type expression of the corpus (core: each impl family of C04 incl. all NonZero*, all 8 BitVec store/order pairs, Compact<u8..u128,()>, Cow of sized/unsized targets, "
                   "tuples 1..20, arrays 0..1000; seeded nesting to depth 4) x boundary-heavy sampled values; each value is SCALE-encoded by parity-scale-codec and decoded by a schema-directed decoder "
@@ -904,10 +917,12 @@ def p_features(o):
     compare("base", off, "docs off")
     compare("base", on, "docs on")
     compare("base_nodocs", list(ok), "docs stripped")
+    compare("base_retained_nodocs", list(ok), "after retain(id % 3 == 0), docs stripped")
     bv = [fs for fs in ok if "bit-vec" in fs]
     compare("bitvec", [fs for fs in bv if "docs" not in fs], "BitVec corpus, docs off")
     compare("bitvec", [fs for fs in bv if "docs" in fs], "BitVec corpus, docs on")
     compare("bitvec_nodocs", bv, "BitVec corpus, docs stripped")
+    compare("bitvec_retained_nodocs", bv, "BitVec corpus after retain, docs stripped")
     if on and off and ok[on[0]].get("base") == ok[off[0]].get("base"):
         o.inconclusive.append("docs feature made no difference at all: corpus has no capturable docs")
     o.distinct = len(ok)
@@ -989,6 +1004,7 @@ def p_codec(o):
     cases = sizes(o.tier, 150_000, 12_000_000)
     o.replay_base = {"sub": "codec"}
     rt_pass(o, exe, "codec", ["--cases", cases, "--max-secs", sizes(o.tier, 60, 420)], timeout=sizes(o.tier, 300, 1500))
+    nodebug_pass(o, build_rt(profile="nodebug"), "codec", ["--cases", sizes(o.tier, 30_000, 1_000_000), "--max-secs", sizes(o.tier, 30, 120), "--first", 7_000_000], timeout=sizes(o.tier, 300, 900))
     o.rule = ("RegGen registries (seeded; well-formed and arbitrary modes; every definition kind; ids from all four compact size classes; "
               "hostile unicode strings; vector lengths across 63/64 and, thorough, 16383/16384). A case is non-trivial when the registry has >=1 entry; "
               "distinct = distinct reference encodings (content hash).")
@@ -1006,6 +1022,8 @@ def p_retain(o):
     o.replay_base = {"sub": "retain"}
     rt_pass(o, exe, "retain", ["--cases", sizes(o.tier, 400_000, 30_000_000), "--max-secs", sizes(o.tier, 60, 420)], timeout=sizes(o.tier, 300, 1500),
             crash_is_violation=("C10/crash", "retain crashed the process (stack overflow / abort) on a well-formed registry"))
+    nodebug_pass(o, build_rt(profile="nodebug"), "retain", ["--cases", sizes(o.tier, 100_000, 3_000_000), "--max-secs", sizes(o.tier, 30, 120)], timeout=sizes(o.tier, 300, 900),
+                 crash=("C10/crash", "retain crashed the process (stack overflow / abort) on a well-formed registry"))
     o.rule = ("(well-formed RegGen registry, filter) pairs; filters: none, all, single id, last, pair, random subsets of several densities, only leaves, only roots. "
               "Non-trivial: filter accepts something, reachability adds ids beyond the accepted ones, and something is dropped. distinct = distinct (registry encoding, accepted set).")
     o.need(["reachable_only_through_type_param", "self_reference_retained", "second_retain_checked", "filter_none", "filter_all", "filter_single", "filter_random-subset", "filter_leaves", "filter_roots"]
@@ -1018,6 +1036,7 @@ def p_table(o):
     exe = build_rt()
     o.replay_base = {"sub": "table"}
     rt_pass(o, exe, "table", ["--cases", sizes(o.tier, 400_000, 30_000_000), "--max-secs", sizes(o.tier, 60, 360)], timeout=sizes(o.tier, 300, 1500))
+    nodebug_pass(o, build_rt(profile="nodebug"), "table", ["--cases", sizes(o.tier, 100_000, 3_000_000), "--max-secs", sizes(o.tier, 30, 120)], timeout=sizes(o.tier, 300, 900))
     o.rule = ("random operation histories (<=200 ops) over tiny value alphabets (2-8 values) on Interner<u8>, Interner<String> and PortableRegistryBuilder "
               "(pool of RegGen types, self-referencing registrations through next_type_id). Every history with >=1 op is non-trivial; distinct = distinct op sequences.")
     o.need(["intern_new", "intern_duplicate", "get_hit", "get_miss", "resolve_in_range", "resolve_out_of_range", "elements_compared",
